@@ -1,3 +1,4 @@
 import TinyFlux.Audit.Tool
 import TinyFlux.Props.C03
+import TinyFlux.Props.C03State
 #audit TinyFlux.Props.C03
